@@ -92,6 +92,7 @@ impl Verdict {
 }
 
 pub const MAX: usize = 300;
+pub const WEAK_ED: &str = "weak ed25519 key or signature (small-order point)";
 
 /// The length of the first complete item of `buf` as delimited by R-RLP (lenient framing:
 /// only the declared length matters for delimiting), if there is one.
@@ -200,11 +201,18 @@ pub fn ref_decode(buf: &[u8], kt: KeyType) -> Verdict {
         rules.push(R15PortNotCanonicalU16);
     }
 
+    // open region: inner bytes of list values under unknown keys (not judged when they are not canonical RLP)
+    let mut unspecified: Option<&'static str> = None;
+    for (k, v) in &pairs {
+        let reserved = matches!(k.as_slice(), b"id" | b"ip" | b"ip6" | b"tcp" | b"tcp6" | b"udp" | b"udp6" | b"secp256k1" | b"ed25519");
+        if !reserved && rlp::header(v, true).map_or(false, |h| h.list) && !rlp::deep_canonical(v) {
+            unspecified = Some("inner bytes of a list value under an unknown key");
+        }
+    }
     // public key
     let secp_entry = get(b"secp256k1").cloned();
     let ed_entry = get(b"ed25519").cloned();
     let is_list = |v: &Option<Vec<u8>>| v.as_ref().map_or(false, |v| rlp::header(v, true).map_or(false, |h| h.list));
-    let mut unspecified: Option<&'static str> = None;
     let lib = kt.ref_lib();
     #[derive(PartialEq)]
     enum E {
@@ -291,6 +299,10 @@ pub fn ref_decode(buf: &[u8], kt: KeyType) -> Verdict {
     let mut node_id = [0u8; 32];
     if let Some((scheme, pk)) = &identity {
         let content = rlp::enc_list_payload(&payload[items[0].raw.len()..]);
+        if *scheme == Scheme::Ed && !items[0].hdr.list && (rc::ed_small_order(pk) || (items[0].payload.len() == 64 && rc::ed_small_order(&items[0].payload[..32]))) {
+            // cofactor-less and strict Ed25519 verification differ exactly here; the statements do not choose
+            unspecified = Some(WEAK_ED);
+        }
         let sig_ok = !items[0].hdr.list
             && match scheme {
                 Scheme::Secp => rc::secp_verify(lib, pk, &keccak256(&content), items[0].payload),
@@ -303,6 +315,9 @@ pub fn ref_decode(buf: &[u8], kt: KeyType) -> Verdict {
             Scheme::Secp => keccak256(&rc::secp_uncompressed(lib, pk).expect("validated")),
             Scheme::Ed => keccak256(pk),
         };
+    }
+    if unspecified == Some(WEAK_ED) {
+        rules.retain(|r| *r != Rule::R18SignatureInvalid);
     }
     if !rules.is_empty() {
         rules.sort();
